@@ -102,6 +102,7 @@ func (c17) Plan(tier string) []fw.Unit {
 	}
 	us := planEnum("C17", tier, len(c17Preds()), shards)
 	us = append(us, fw.Unit{Check: "C17", Kind: "key-pairs", Tier: tier, Spec: fw.Spec(enumSpec{})})
+	us = append(us, fw.Unit{Check: "C17", Kind: "expr-args", Tier: tier, Spec: fw.Spec(enumSpec{})})
 	// strategy block without a timeout, a window output buffer of one result, a sink taking 20 ms per batch, rows fed
 	// back to back: the window must wait for its consumer (predicates count(*) >= 1 and count(*) >= 2)
 	us = append(us, fw.Unit{Check: "C17", Kind: "block", Tier: tier, Spec: fw.Spec(enumSpec{Cfg: 0})}, fw.Unit{Check: "C17", Kind: "block", Tier: tier, Spec: fw.Spec(enumSpec{Cfg: 1})})
@@ -176,6 +177,100 @@ func c17Typed() fw.Result {
 	return a.result()
 }
 
+// c17ExprArgs: aggregates whose argument is an expression (sum(v * 2), max(v + 1)) in the SELECT list and in the
+// TRIGGER WHEN predicate of a global window: "the aggregates over precisely those rows" are aggregates of the
+// expression's value per row.
+func c17ExprArgs(tier string) fw.Result {
+	a := newAcc("C17", "det-global-expr-args")
+	maxL := 4
+	if tier == "thorough" {
+		maxL = 5
+	}
+	type q struct {
+		where, sql string
+		fire       func(vs []ref.Val) bool
+	}
+	dbl := func(vs []ref.Val) (float64, bool) {
+		xs := ref.Usable(vs)
+		return 2 * ref.Sum(xs), len(xs) > 0
+	}
+	qs := []q{
+		{"select", "SELECT k, count(*) AS c, sum(v * 2) AS s2, max(v + 1) AS m FROM stream GROUP BY k, GLOBAL WINDOW TRIGGER WHEN count(*) >= 2", func(vs []ref.Val) bool { return len(vs) >= 2 }},
+		{"trigger", "SELECT k, count(*) AS c, sum(v * 2) AS s2, max(v + 1) AS m FROM stream GROUP BY k, GLOBAL WINDOW TRIGGER WHEN sum(v * 2) >= 6", func(vs []ref.Val) bool { x, ok := dbl(vs); return ok && x >= 6 }},
+	}
+	for _, qq := range qs {
+		for L := 1; L <= maxL; L++ {
+			sequences(L, 2*len(c17Vals), func(seq []int) {
+				cur := map[string][]ref.Val{}
+				var want []string
+				var rows []Row
+				for i, x := range seq {
+					k := []string{"a", "b"}[x/len(c17Vals)]
+					v := c17Vals[x%len(c17Vals)]
+					row := Row{"k": k, "id": i + 1}
+					if v.Usable() {
+						row["v"] = v.F
+					} else {
+						row["v"] = nil
+					}
+					rows = append(rows, row)
+					cur[k] = append(cur[k], v)
+					if qq.fire(cur[k]) {
+						s2, m := "NULL", "NULL"
+						if xs := ref.Usable(cur[k]); len(xs) > 0 {
+							s2, m = fmt.Sprintf("%.6g", 2*ref.Sum(xs)), fmt.Sprintf("%.6g", ref.Max(xs)+1)
+						}
+						want = append(want, fmt.Sprintf("%s:c=%d,s2=%s,m=%s", k, len(cur[k]), s2, m))
+						cur[k] = nil
+					}
+				}
+				r := detExec(qq.sql, detOpts{Eager: true, Horizon: 100 * vtime.Millisecond}, func(e *Env) {
+					for _, row := range rows {
+						e.Emit(copyVal(row).(map[string]any))
+					}
+				})
+				a.r.Evaluations++
+				a.r.States++
+				a.r.Transitions += int64(r.Steps)
+				cs := map[string]any{"sql": qq.sql, "rows": rows}
+				if r.ExecErr != "" || r.Status != sched.StatusOK {
+					a.fail("C17|expr-argument|exec|"+qq.where, r.ExecErr+" "+r.Status.String()+" "+firstLine(r.Panic), cs, nil, nil)
+					return
+				}
+				var got []string
+				for _, b := range r.Batches {
+					for _, row := range b {
+						k, _ := row["k"].(string)
+						c, _ := num(row["c"])
+						f := func(v any) string {
+							if x, ok := num(v); ok {
+								return fmt.Sprintf("%.6g", x)
+							}
+							return "NULL"
+						}
+						got = append(got, fmt.Sprintf("%s:c=%d,s2=%s,m=%s", k, int(c), f(row["s2"]), f(row["m"])))
+					}
+				}
+				if len(want) > 0 {
+					a.r.Nontrivial++
+				}
+				a.outcome(strings.Join(got, ";"))
+				if strings.Join(got, ";") != strings.Join(want, ";") {
+					kind := "wrong-aggregates"
+					if len(got) < len(want) {
+						kind = "missed-fire"
+					} else if len(got) > len(want) {
+						kind = "spurious-fire"
+					}
+					a.fail(fmt.Sprintf("C17|expr-argument|%s|%s", qq.where, kind), fmt.Sprintf("%s: fired %v, reference %v", qq.sql, got, want), cs, want, got)
+				}
+			})
+		}
+	}
+	a.sample(map[string]any{"queries": []string{qs[0].sql, qs[1].sql}})
+	return a.result()
+}
+
 type c17Fire struct {
 	K    string
 	C    float64
@@ -198,6 +293,9 @@ func (c17) Run(u fw.Unit) fw.Result {
 	}
 	if u.Kind == "key-pairs" {
 		return c17KeyPairs()
+	}
+	if u.Kind == "expr-args" {
+		return c17ExprArgs(u.Tier)
 	}
 	sp := parseEnum(u)
 	block := u.Kind == "block"
